@@ -5,6 +5,7 @@ package main
 
 import (
 	"bufio"
+	"bytes"
 	"encoding/json"
 	"fmt"
 	"os"
@@ -154,9 +155,34 @@ func (r *recorder) record(id int, q, df string) *ParseRec {
 	return rec
 }
 
+// write emits one ndjson line.  TLC's Json module rejects JSON null, so a null that slips into a record (a nil
+// map / slice / interface somewhere in a projection of unexpected behaviour) is written as the string "NULL".
 func (r *recorder) write(rec any) {
-	r.out.Write(asciiJSON(rec))
+	b := asciiJSON(rec)
+	if bytes.Contains(b, []byte("null")) {
+		var v any
+		if json.Unmarshal(b, &v) == nil {
+			b = asciiJSON(denull(v))
+		}
+	}
+	r.out.Write(b)
 	r.out.WriteByte('\n')
+}
+
+func denull(v any) any {
+	switch x := v.(type) {
+	case nil:
+		return "NULL"
+	case map[string]any:
+		for k, e := range x {
+			x[k] = denull(e)
+		}
+	case []any:
+		for i, e := range x {
+			x[i] = denull(e)
+		}
+	}
+	return v
 }
 
 // ---- token pools shared with spec/Parser.tla (TokVal) ----------------------------------------
